@@ -312,6 +312,10 @@ pub fn c12_directed() -> Vec<(&'static str, String)> {
         ("call-in-condition", "functie waar() { ja } functie tel(n) { n + 1 } als waar() { tel(1) } anders { tel(2) }".into()),
         ("call-above-64k-of-code", format!("stel x = 0; functie tel() {{ x = x + 1; x }}; {} [tel(), tel(), x]", "x = x + 1; ".repeat(9000))),
         ("calls-throughout-100k-of-code", format!("functie dubbel(v) {{ stel w = v * 2; w }}; stel som = 0; {} [som, dubbel(som)]", (0..6000).map(|k| format!("som = som + dubbel({}); ", k % 7)).collect::<String>())),
+        // a helper function declared inside a function is a local of that activation, whatever the name means outside
+        ("local-function-named-like-a-global-function", "functie hulp() { 1 } functie buiten() { functie hulp() { 2 }; hulp() }; stel eerst = hulp(); [buiten(), hulp(), eerst]".into()),
+        ("local-function-named-like-a-global-variable", "stel teller = 10; functie buiten() { functie teller() { 7 }; teller() }; [buiten(), teller, buiten(), teller + 1]".into()),
+        ("local-function-in-recursion", "functie r(n) { functie zelf(k) { k * 2 }; als n == 0 { zelf(1) } anders { zelf(n) + r(n - 1) } } functie zelf(k) { 0 - k }; [r(3), zelf(5)]".into()),
         ("call-in-loop-condition", "stel n = 0; functie minder(a) { a < 3 } zolang minder(n) { n += 1 }; n".into()),
     ]
 }
